@@ -219,8 +219,7 @@ func (ex *Exec) vsymCall(st *State, fr *Frame, dst ssa.Value, fn *ssa.Function, 
 		a, b := args[0].(IfaceV), args[1].(IfaceV)
 		ex.ret(fr, dst, ex.deepEq(st, a.v, b.v, 0))
 	case "vsymTrack":
-		p := args[0].(Ptr)
-		st.track = p.obj
+		ex.startTracking(st, args[0].(IfaceV))
 		ex.ret(fr, dst, nil)
 	case "vsymHeld":
 		// number of mutexes currently held
